@@ -75,6 +75,9 @@ axiom('wordx', 'lemma', 'take-over', ForAll([_k, _w, _S], Implies(over(_S, _w), 
 axiom('wordx', 'lemma', 'drop-over', ForAll([_k, _w, _S], Implies(over(_S, _w), over(_S, drop(_k, _w)))))
 axiom('wordx', 'lemma', 'take-app', ForAll([_u, _v], take(wlen(_u), app(_u, _v)) == _u))
 axiom('wordx', 'lemma', 'drop-app', ForAll([_u, _v], drop(wlen(_u), app(_u, _v)) == _v))
+axiom('wordx', 'lemma', 'prefix-is-take', ForAll([_u, _w], Implies(isprefix(_u, _w), _u == take(wlen(_u), _w))))
+axiom('wordx', 'lemma', 'take-zero', ForAll([_w], take(0, _w) == Word.nil))
+axiom('wordx', 'lemma', 'drop-all', ForAll([_k, _w], Implies(_k >= wlen(_w), drop(_k, _w) == Word.nil)))
 axiom('wordx', 'def', 'rev-nil', rev(Word.nil) == Word.nil)
 axiom('wordx', 'def', 'rev-snoc', ForAll([_w, _a], rev(Word.snoc(_w, _a)) == cons(_a, rev(_w))))
 
@@ -649,3 +652,76 @@ def s_card_strict(ev, a, b, x):
 def s_closure_limit(ev): return SV(INT, z3.Const('GambaTools_pda_epsilon_closure_max_iterations', z3.IntSort()))
 axiom('pda', 'lemma', 'EcloP-mono', ForAll([_Pp, _Rc, Const('Rc2', SetC)], Implies(ForAll([_c1], Implies(Select(_Rc, _c1), Select(Const('Rc2', SetC), _c1))),
                                                                               ForAll([_c1], Implies(Select(EcloP(_Pp, _Rc), _c1), Select(EcloP(_Pp, Const('Rc2', SetC)), _c1))))))
+
+
+# ====================================================================== context-free grammars in CNF: span derivability (C07)
+CFGs = sort_of(REC('CFG')); _Gg = Const('Gg', CFGs); _Gsv = SV(REC('CFG'), _Gg)
+der = Function('der', CFGs, Atom, Word, Int, Int, BoolSort())      # der(G, A, w, i, j): A derives w[i..j] (inclusive) by terminal and binary rules
+_LR = parts(LIST(REC('Rule'))); _RL = parts(REC('Rule')); _AL = parts(REC('Alternative')); _LAt = parts(LIST(ATOM))
+
+
+def rule_at(G, t):
+    r = Select(_LR[3](rec_get(G, 'R').z), t)
+    syms = _AL[2](_RL[3](r))
+    return _RL[2](r), _LAt[2](syms), _LAt[3](syms)      # variable, len(symbols), symbols array
+
+
+def _der_axioms():
+    A, B = Consts('A_ B_', Atom); t = Const('t_', Int); i, j, k = Consts('i_ j_ k_', Int)
+    nR = _LR[2](rec_get(_Gsv, 'R').z)
+    var, ln, arr = rule_at(_Gsv, t)
+    global _DER_AX
+    _DER_AX = (A, B, i, j, k, nR)
+_der_axioms()
+
+
+def _der_axioms2():
+    A, B, i, j, k, nR = _DER_AX; C = Const('C_', Atom)
+    axiom('cfg', 'def', 'der-base', ForAll([_Gg, A, _w, i], der(_Gg, A, _w, i, i) == has_unit_b(_Gg, A, at(_w, i), nR)))
+    axiom('cfg', 'def', 'der-step', ForAll([_Gg, A, _w, i, j], Implies(i < j, der(_Gg, A, _w, i, j) ==
+          Exists([k, B, C], And(i <= k, k < j, has_bin_b(_Gg, A, B, C, nR), der(_Gg, B, _w, i, k), der(_Gg, C, _w, k + 1, j))))))
+
+
+@spec('der')
+def s_der(ev, G, A, w, i, j): return SV(BOOL, der(G.z, A.z, w.z, i.z, j.z))
+LLA = sort_of(LIST(LIST(ATOM))); _LL = parts(LIST(LIST(ATOM)))
+has_unit_b = Function('has_unit', CFGs, Atom, Atom, Int, BoolSort())        # some rule R[t], t < upto, is  A -> [a]
+has_bin_b = Function('has_bin', CFGs, Atom, Atom, Atom, Int, BoolSort())     # some rule R[t], t < upto, is  A -> [B, C]
+in_unit_b = Function('in_unit', LLA, Atom, BoolSort())                       # the list of right-hand sides contains [a]
+in_bin_b = Function('in_bin', LLA, Atom, Atom, BoolSort())
+def _rhs_axioms():
+    A, B, C, a = Consts('A_ B_ C_ a_', Atom); t, up, u = Consts('t_ up_ u_', Int); L = Const('L_', LLA)
+    var, ln, arr = rule_at(_Gsv, t)
+    axiom('cfg', 'def', 'has_unit-def', ForAll([_Gg, A, a, up], has_unit_b(_Gg, A, a, up) == Exists([t], And(0 <= t, t < up, var == A, ln == 1, Select(arr, 0) == a))))
+    axiom('cfg', 'def', 'has_bin-def', ForAll([_Gg, A, B, C, up], has_bin_b(_Gg, A, B, C, up) == Exists([t], And(0 <= t, t < up, var == A, ln == 2, Select(arr, 0) == B, Select(arr, 1) == C))))
+    el = Select(_LL[3](L), u)
+    axiom('cfg', 'def', 'in_unit-def', ForAll([L, a], in_unit_b(L, a) == Exists([u], And(0 <= u, u < _LL[2](L), _LAt[2](el) == 1, Select(_LAt[3](el), 0) == a))))
+    axiom('cfg', 'def', 'in_bin-def', ForAll([L, B, C], in_bin_b(L, B, C) == Exists([u], And(0 <= u, u < _LL[2](L), _LAt[2](el) == 2, Select(_LAt[3](el), 0) == B, Select(_LAt[3](el), 1) == C))))
+_rhs_axioms()
+
+
+@spec('has_unit')
+def s_has_unit(ev, G, A, a, upto): return SV(BOOL, has_unit_b(G.z, A.z, a.z, upto.z))
+@spec('has_bin')
+def s_has_bin(ev, G, A, B, C, upto): return SV(BOOL, has_bin_b(G.z, A.z, B.z, C.z, upto.z))
+@spec('in_unit')
+def s_in_unit(ev, L, a): return SV(BOOL, in_unit_b(L.z, a.z))
+@spec('in_bin')
+def s_in_bin(ev, L, B, C): return SV(BOOL, in_bin_b(L.z, B.z, C.z))
+@spec('lookup_list')
+def s_lookup_list(ev, m, k):
+    """m[k] for a defaultdict(list): the stored list or an empty list"""
+    vt = m.t.args[1]
+    return SV(vt, If(Select(map_dom(m), k.z), Select(map_val(m), k.z), parts(vt)[1](z3.IntVal(0), EMPTY_ARR(vt))))
+
+
+_empty_arrs = {}
+def EMPTY_ARR(vt):
+    if vt.key not in _empty_arrs: _empty_arrs[vt.key] = z3.Const('empty_arr_' + ''.join(c if c.isalnum() else '_' for c in vt.key), z3.ArraySort(z3.IntSort(), sort_of(vt.args[0])))
+    return _empty_arrs[vt.key]
+
+
+_der_axioms2()
+cnf_b = Function('cnf', CFGs, BoolSort())          # the value CFG.is_chomsky() returns (assumed contract; the table specification below does not depend on it)
+@spec('cnf')
+def s_cnf(ev, G): return SV(BOOL, cnf_b(G.z))
